@@ -210,6 +210,8 @@ def register(reg):  # noqa: F811
     register_validation(reg)
     register_run(reg)
     register_run2(reg)
+    register_connect(reg)
+    register_branching(reg)
 
 
 ASSUMPTIONS = {"C01": ["link graph is well formed: every chain of inputs/adapters is finite and ends in an output (established by linking and Composition._validate_composition, decided in C19)",
@@ -796,3 +798,223 @@ REPLAY = {
     f"{S}.Composition.run": "seq_sched.py", f"{S}.Composition._finalize_components": "seq_sched.py",
     f"{S}.Composition._check_status": "seq_sched.py",
 }
+
+
+# =================================================================================================
+# Composition.__init__ / connect / _connect_components (C10.5, C19.5, C04.2, C06.5, C03.1)
+# =================================================================================================
+VALIDATED_OK = z3.Bool("topology_validated")   # rigid: "_validate_composition accepted the topology" (defined in its unit)
+
+
+def register_connect(reg):
+    from .base import RETENTION_FIELDS
+
+    reg.field("_slot_memory_limit", TOpt(Int))
+    reg.field("_slot_memory_location", TOpt(Str))
+    reg.field("_dependencies", TOpt(TRef(None)))
+    reg.field("_input_owners", TDict(TRef("IInput"), TRef("IComponent")))
+    reg.field("$exchange_started", Bool)  # ghost: some component's connect() (info/data exchange) was called
+    reg.field("$progress", Int)  # ghost: number of connect() calls that reported progress (CONNECTING or CONNECTED)
+
+    lim = lambda ctx, o: ctx.get(o, "_mem_limit")
+    loc = lambda ctx, o: ctx.get(o, "_mem_location")
+    reg.add(Contract("iface:IOutput.memory_limit", pure=True, verify=False, result_fn=lambda ctx: lim(ctx, ctx.self)))
+    reg.add(Contract("iface:IOutput.memory_location", pure=True, verify=False, result_fn=lambda ctx: loc(ctx, ctx.self)))
+    reg.add(Contract("iface:IOutput.memory_limit.setter", params={"value": TOpt(Int)}, verify=False,
+                     modifies=lambda ctx: [(ctx.self, "_mem_limit")],
+                     ensures=lambda ctx, r: sv.value_eq(lim(ctx, ctx.self), ctx.value)))
+    reg.add(Contract("iface:IOutput.memory_location.setter", params={"value": TOpt(Str)}, verify=False,
+                     modifies=lambda ctx: [(ctx.self, "_mem_location")],
+                     ensures=lambda ctx, r: sv.value_eq(loc(ctx, ctx.self), ctx.value)))
+
+    # ---- component life-cycle interface: a call only changes the component's own status
+    def only_own_status(ctx):
+        o = z3.Int(sv.uid("so"))
+        return z3.ForAll([o], Implies(o != ctx.self.e, status_of(ctx, o) == status_of(ctx.old, o)))
+
+    life_mod = lambda ctx: [(None, f) for f in ["$status", "$inputs", "$outputs", "_mem_limit", "_mem_location", "$ctime", "$next_time", "_time",
+                                                "_source", "_targets", "_output_info", "_input_info", "_out_infos_exchanged",
+                                                "_in_info_exchanged"] + RETENTION_FIELDS] + \
+        [(WORLD, "$pull_log"), (WORLD, "$notify_log"), (WORLD, "$exchange_started"), (WORLD, "$progress")]
+    reg.add(Contract("iface:IComponent.initialize", params={}, note="method", verify=False,
+                     modifies=lambda ctx: [(None, f) for f in ["$status", "$inputs", "$outputs", "_mem_limit", "_mem_location", "$ctime", "$next_time"]],
+                     requires=lambda ctx: status_of(ctx, ctx.self.e) == st("CREATED"),
+                     ensures=lambda ctx, r: And(only_own_status(ctx), slots_frame(ctx, ctx.self.e))))
+    reg.add(Contract("iface:IComponent.connect", params={"start_time": TimeOpt}, note="method", verify=False, modifies=life_mod,
+                     requires=lambda ctx: And(Or(*[status_of(ctx, ctx.self.e) == st(n) for n in ("INITIALIZED", "CONNECTING", "CONNECTING_IDLE")]),
+                                              VALIDATED_OK),
+                     ensures=lambda ctx, r: And(only_own_status(ctx), ctx.get(WORLD, "$exchange_started").e,
+                                                ctx.get(WORLD, "$progress").e == ctx.old.get(WORLD, "$progress").e +
+                                                If(Or(status_of(ctx, ctx.self.e) == st("CONNECTING"), status_of(ctx, ctx.self.e) == st("CONNECTED")), z3.IntVal(1), z3.IntVal(0)))))
+    reg.add(Contract("iface:IComponent.validate", params={}, note="method", verify=False,
+                     modifies=lambda ctx: [(None, "$status")],
+                     requires=lambda ctx: status_of(ctx, ctx.self.e) == st("CONNECTED"),
+                     ensures=lambda ctx, r: only_own_status(ctx)))
+
+    def slots_frame(ctx, comp_e):
+        """initialize() of one component creates / configures only its own slots"""
+        c = z3.Int(sv.uid("sc"))
+        k = z3.Const(sv.uid("sk"), sv.StrS)
+        outs0, outs1 = ctx.old.get(c, "$outputs"), ctx.get(c, "$outputs")
+        same_outputs = z3.ForAll([c, k], Implies(c != comp_e, And(outs1.dom(k) == outs0.dom(k), outs1.val(k).e == outs0.val(k).e)))
+        o = z3.Int(sv.uid("so"))
+        own = lambda x: z3.Exists([k], And(ctx.get(comp_e, "$outputs").dom(k), ctx.get(comp_e, "$outputs").val(k).e == x))
+        limits_kept = z3.ForAll([o], Implies(Not(own(o)), And(sv.value_eq(lim(ctx, o), lim(ctx.old, o)), sv.value_eq(loc(ctx, o), loc(ctx.old, o)))))
+        return And(same_outputs, limits_kept)
+
+    # ------------------------------------------------------------------ _connect_components (C04.2, C06.5)
+    def cc_all_connected(ctx):
+        comps = ctx.get(ctx.self, "_components")
+        i = z3.Int(sv.uid("cci"))
+        return z3.ForAll([i], Implies(And(0 <= i, i < comps.n), status_of(ctx, comps.at(i).e) == st("CONNECTED")))
+
+    def cc_stalled(ctx):
+        """raised only when a whole sweep made no progress and something is still unconnected"""
+        comps = ctx.get(ctx.self, "_components")
+        i = z3.Int(sv.uid("cci"))
+        j = z3.Int(sv.uid("ccj"))
+        return And(z3.Exists([i], And(0 <= i, i < comps.n, status_of(ctx, comps.at(i).e) != st("CONNECTED"))),
+                   z3.ForAll([j], Implies(And(0 <= j, j < comps.n),
+                                          Or(status_of(ctx, comps.at(j).e) == st("CONNECTED"), status_of(ctx, comps.at(j).e) == st("CONNECTING_IDLE")))))
+
+    def cc_sweep_inv(ctx):
+        comps = ctx.get(ctx.self, "_components")
+        j = z3.Int(sv.uid("swj"))
+        unc = ctx.local("any_unconnected").e
+        new = ctx.local("any_new_connection").e
+        sj = status_of(ctx, comps.at(j).e)
+        return And(
+            distinct_components(ctx),
+            z3.ForAll([j], Implies(And(0 <= j, j < ctx.k, Not(unc)), sj == st("CONNECTED"))),
+            Implies(unc, z3.Exists([j], And(0 <= j, j < ctx.k, sj != st("CONNECTED")))),
+            # no progress so far: every visited component is connected since before the sweep or reported idle
+            Implies(Not(new), z3.ForAll([j], Implies(And(0 <= j, j < ctx.k), Or(sj == st("CONNECTED"), sj == st("CONNECTING_IDLE"))))),
+            VALIDATED_OK,
+            z3.ForAll([j], Implies(And(0 <= j, j < ctx.k), Or(sj == st("CONNECTING"), sj == st("CONNECTING_IDLE"), sj == st("CONNECTED")))),
+            # the flag any_new_connection is set only when a connect() call really reported progress
+            ctx.get(WORLD, "$progress").e >= ctx.local("$p0").e,
+            Implies(new, ctx.get(WORLD, "$progress").e > ctx.local("$p0").e),
+        )
+
+    def distinct_components(ctx):
+        comps = ctx.get(ctx.self, "_components")
+        i, j = z3.Int(sv.uid("di")), z3.Int(sv.uid("dj"))
+        return And(z3.ForAll([i, j], Implies(And(0 <= i, i < j, j < comps.n), comps.at(i).e != comps.at(j).e)),
+                   z3.ForAll([i], Implies(And(0 <= i, i < comps.n), comps.at(i).e > 0)))
+
+    reg.add(Contract(
+        f"{S}.Composition._connect_components", self_cls="Composition", props=["C04.2", "C06.5", "C03.1", "C19.5"],
+        params={"time": TimeOpt},
+        requires=lambda ctx: And(distinct_components(ctx), VALIDATED_OK, comps_in_status(ctx, ("INITIALIZED", "CONNECTING", "CONNECTING_IDLE", "CONNECTED"))),
+        ensures=lambda ctx, r: cc_all_connected(ctx), modifies=life_mod,
+        raises={"FinamCircularCouplingError": cc_stalled, "FinamStatusError": lambda ctx: z3.BoolVal(True)},
+        loops={1: dict(invariant=lambda ctx: And(distinct_components(ctx), VALIDATED_OK,
+                                                 comps_in_status(ctx, ("INITIALIZED", "CONNECTING", "CONNECTING_IDLE", "CONNECTED"))),
+                       at_exit=cc_all_connected, increases=lambda ctx: ctx.get(WORLD, "$progress").e,
+                       snapshot={"p0": lambda ctx: ctx.get(WORLD, "$progress")},
+                       locals={"any_unconnected": Bool, "any_new_connection": Bool, "counter": Int}),
+               2: dict(invariant=lambda ctx: And(cc_sweep_inv(ctx), comps_in_status_from(ctx, ctx.k, ("INITIALIZED", "CONNECTING", "CONNECTING_IDLE", "CONNECTED"))),
+                       locals={"any_unconnected": Bool, "any_new_connection": Bool})},
+    ))
+
+
+def comps_in_status(ctx, names):
+    return comps_in_status_from(ctx, z3.IntVal(0), names)
+
+
+def comps_in_status_from(ctx, lo, names):
+    comps = ctx.get(ctx.self, "_components")
+    i = z3.Int(sv.uid("csi"))
+    return z3.ForAll([i], Implies(And(lo <= i, i < comps.n), Or(*[status_of(ctx, comps.at(i).e) == st(n) for n in names])))
+
+
+# =================================================================================================
+# _check_branching (C19.3): worklist over the downstream tree
+# =================================================================================================
+def register_branching(reg):
+    TG = lambda ctx, x: ctx.get(x, "_targets")
+    NB = lambda x: isa("NoBranchAdapter", x)
+    # BAD(x, f): below element x (reached with no-branch flag f) some element lies at or downstream of a
+    # NoBranchAdapter and has more than one target.   Defined by its unfolding (least fixed point; both directions used)
+    BAD = z3.Function("Branch.bad", IntS, BoolS, BoolS)
+    BW = z3.Function("Branch.bad.child", IntS, BoolS, IntS)   # witness child index
+
+    def bad_axioms(ctx):
+        x = z3.Int("bx_x")
+        f = z3.Bool("bx_f")
+        i = z3.Int("bx_i")
+        tg = TG(ctx, x)
+        f2 = Or(f, NB(x))
+        here = And(f2, tg.n > 1)
+        child = lambda k: And(0 <= k, k < tg.n, isa("IOutput", tg.at(k).e), BAD(tg.at(k).e, f2))
+        return [
+            # introduction
+            z3.ForAll([x, f], Implies(here, BAD(x, f)), patterns=[BAD(x, f)]),
+            z3.ForAll([x, f, i], Implies(child(i), BAD(x, f)), patterns=[z3.MultiPattern(BAD(x, f), tg.at(i).e)]),
+            # elimination (witness)
+            z3.ForAll([x, f], Implies(BAD(x, f), Or(here, child(BW(x, f)))), patterns=[BAD(x, f)]),
+            # the downstream structure is a finite tree (stated assumption)
+            z3.ForAll([x, i], Implies(And(0 <= i, i < tg.n), And(tg.at(i).e > 0, DEPTH(tg.at(i).e) < DEPTH(x))), patterns=[tg.at(i).e]),
+            z3.ForAll([x], DEPTH(x) >= 0, patterns=[DEPTH(x)]),
+        ]
+
+    ItemT = TTup(TRef(None), Bool)
+
+    def wl(ctx):
+        return ctx.local("targets")
+
+    def some_bad_in_worklist(ctx, lst, upto=None):
+        q = z3.Int(sv.uid("wq"))
+        n = lst.n if upto is None else upto
+        return z3.Exists([q], And(0 <= q, q < n, BAD(lst.at(q).items[0].e, lst.at(q).items[1].e)))
+
+    def cb_inv1(ctx):
+        lst = wl(ctx)
+        q = z3.Int(sv.uid("wq"))
+        out = ctx.out.e
+        return And(
+            z3.ForAll([q], Implies(And(0 <= q, q < lst.n), lst.at(q).items[0].e > 0)),
+            # nothing violating has been dropped: the output is bad iff something on the worklist is
+            BAD(out, z3.BoolVal(False)) == some_bad_in_worklist(ctx, lst),
+        )
+
+    def cb_inv2(ctx):
+        """inner for over curr_targets: children k.. still to be appended"""
+        lst = wl(ctx)
+        tgt = ctx.local("target")   # NB: the loop variable shadows the popped element
+        q = z3.Int(sv.uid("wq"))
+        return And(z3.ForAll([q], Implies(And(0 <= q, q < lst.n), lst.at(q).items[0].e > 0)))
+
+    def entries_ok(ctx, lst):
+        q = z3.Int(sv.uid("wq"))
+        e = lst.at(q).items[0].e
+        return z3.ForAll([q], Implies(And(0 <= q, q < lst.n),
+                                      And(e > 0, isa("IOutput", e), Implies(BAD(e, lst.at(q).items[1].e), BAD(ctx.out.e, z3.BoolVal(False))))))
+
+    def cb_sound(ctx):
+        # completeness: if the output is bad, a bad element is still waiting on the worklist
+        return And(entries_ok(ctx, wl(ctx)), Implies(BAD(ctx.out.e, z3.BoolVal(False)), some_bad_in_worklist(ctx, wl(ctx))))
+
+    def cb_sound2(ctx):
+        # inside the scan of the children of the popped element x (flag f2 = no_branch): a bad child makes the output bad
+        nb = ctx.local("no_branch").e
+        ct = ctx.local("curr_targets")
+        i = z3.Int(sv.uid("ci"))
+        kids = z3.ForAll([i], Implies(And(0 <= i, i < ct.n, isa("IOutput", ct.at(i).e), BAD(ct.at(i).e, nb)), BAD(ctx.out.e, z3.BoolVal(False))))
+        pos = z3.ForAll([i], Implies(And(0 <= i, i < ct.n), ct.at(i).e > 0))
+        j = z3.Int(sv.uid("cj"))
+        pending = z3.Exists([j], And(ctx.k <= j, j < ct.n, isa("IOutput", ct.at(j).e), BAD(ct.at(j).e, nb)))
+        return And(entries_ok(ctx, wl(ctx)), kids, pos,
+                   Implies(BAD(ctx.out.e, z3.BoolVal(False)), Or(some_bad_in_worklist(ctx, wl(ctx)), pending)))
+
+    reg.add(Contract(
+        f"{S}._check_branching", props=["C19.3"], params={"comp": TRef("IComponent"), "out": TRef("IOutput")},
+        requires=lambda ctx: And(ctx.out.e > 0, isa("IOutput", ctx.out.e)), axioms=bad_axioms, modifies=lambda ctx: [],
+        raises={"FinamConnectError": lambda ctx: BAD(ctx.out.e, z3.BoolVal(False))},
+        must_raise={"FinamConnectError": lambda ctx: BAD(ctx.out.e, z3.BoolVal(False))},
+        ensures=lambda ctx, r: Not(BAD(ctx.out.e, z3.BoolVal(False))),
+        loops={1: dict(invariant=cb_sound, locals={"targets": TList(ItemT), "target": TRef(None), "no_branch": Bool,
+                                                   "curr_targets": TList(TRef("IInput"))}),
+               2: dict(invariant=cb_sound2, locals={"targets": TList(ItemT), "target": TRef(None)})},
+        note="BAD is the least predicate closed under: an element at/below a NoBranchAdapter with >1 targets, or an output-like child that is BAD",
+    ))
